@@ -260,6 +260,15 @@ func c12Gen(tier string, shard, nshards int, emit func(sc *world.Scenario) bool)
 		}
 	}
 	gen(nil)
+	// (i) round 10: a legal but huge request that never completes, then the client hangs up (buffers of the top size class)
+	{
+		idx++
+		if idx%nshards == shard && !stop {
+			if !emit(HugeIncomplete("C12", 33<<20+4096, 0)) {
+				return
+			}
+		}
+	}
 	// (h) a password is configured: AUTH with arguments of every length 0..20 and much longer (right and wrong ones)
 	for n := 0; n <= 20; n++ {
 		for _, base := range []string{"secretsecretsecretsecret", "xxxxxxxxxxxxxxxxxxxxxxxx"} {
@@ -384,6 +393,11 @@ func c12FromName(name string) *world.Scenario {
 	parts := strings.Split(name, "/")
 	if len(parts) < 4 || parts[0] != "C12" {
 		return nil
+	}
+	if parts[1] == "huge-incomplete" {
+		var n int
+		fmt.Sscanf(parts[2], "%d", &n)
+		return HugeIncomplete("C12", n, 0)
 	}
 	in, err := hex.DecodeString(parts[2])
 	if strings.HasPrefix(parts[1], "odd") {
